@@ -95,6 +95,16 @@ def check_outcross(prog, rep):
         return [Event("?" + dump(st)[:30], st)]
 
     objfns = {n.name for n in body if isinstance(n, ast.FunctionDef)}
+    # the objective may also be a function of the same module (a nested function moved out): one that scores the table before the scan and inside it
+    modfn = {}
+    for n_ in ast.walk(f.node):
+        if isinstance(n_, ast.Assign) and isinstance(n_.value, ast.Call) and isinstance(n_.value.func, ast.Name) and n_.value.func.id in f.module.functions \
+                and n_.value.func.id != f.name and len(n_.value.args) == 1:
+            modfn.setdefault(n_.value.func.id, []).append(n_)
+    for nm_, sites in modfn.items():
+        if any(x in list(ast.walk(scan)) for x in sites) and any(x not in list(ast.walk(scan)) for x in sites):
+            objfns.add(nm_)
+    objnodes = [n for n in body if isinstance(n, ast.FunctionDef)] + [f.module.functions[nm_].node for nm_ in sorted(objfns) if nm_ in f.module.functions]
     paths = enumerate_paths(scan.body, classify, cond_events=lambda e: [])
     inc = None
     for k, v in defs.items():
@@ -237,7 +247,7 @@ def check_outcross(prog, rep):
         rep.ok("R1-outcross", construct, "writes are swaps only; reject path undoes the swap; accept iff score < incumbent (updates incumbent, clears flag, breaks); "
                "loop ends only after a full pass over all i<j pairs without acceptance", sample={"function": construct, "paths": len(paths)})
     # objfn: duplicates per row = sum over rows of (count - 1) over the row's unique entries
-    for n in body:
+    for n in objnodes:
         if isinstance(n, ast.FunctionDef):
             adds = [x for x in ast.walk(n) if isinstance(x, ast.AugAssign) and isinstance(x.op, ast.Add)]
             uniq = [x for x in ast.walk(n) if isinstance(x, ast.Call) and dump(x.func) == "numpy.unique"]
